@@ -14,7 +14,7 @@
 
 from __future__ import annotations
 
-from collections.abc import Set
+from collections.abc import Sequence, Set
 from types import NotImplementedType
 from typing import Any, TYPE_CHECKING
 
@@ -53,6 +53,9 @@ class ParallelGate(raw_types.Gate):
 
     def num_qubits(self) -> int:
         return self.sub_gate.num_qubits() * self._num_copies
+
+    def _qid_shape_(self) -> tuple[int, ...]:
+        return protocols.qid_shape(self.sub_gate) * self._num_copies
 
     @property
     def sub_gate(self) -> cirq.Gate:
@@ -114,6 +117,34 @@ class ParallelGate(raw_types.Gate):
             unitary = np.kron(unitary, single_unitary)
 
         return unitary
+
+    def _has_mixture_(self) -> bool:
+        return protocols.has_mixture(self.sub_gate)
+
+    def _mixture_(self) -> Sequence[tuple[float, np.ndarray]] | NotImplementedType:
+        if protocols.is_measurement(self.sub_gate):
+            return NotImplemented
+        single_mixture = protocols.mixture(self.sub_gate, None)
+        if single_mixture is None:
+            return NotImplemented
+        result = [(1.0, np.eye(1))]
+        for _ in range(self._num_copies):
+            result = [(p * q, np.kron(u, v)) for p, u in result for q, v in single_mixture]
+        return tuple(result)
+
+    def _has_kraus_(self) -> bool:
+        return protocols.has_kraus(self.sub_gate)
+
+    def _kraus_(self) -> Sequence[np.ndarray] | NotImplementedType:
+        if protocols.is_measurement(self.sub_gate):
+            return NotImplemented
+        single_kraus = protocols.kraus(self.sub_gate, None)
+        if single_kraus is None:
+            return NotImplemented
+        result = [np.eye(1)]
+        for _ in range(self._num_copies):
+            result = [np.kron(a, b) for a in result for b in single_kraus]
+        return tuple(result)
 
     def _trace_distance_bound_(self) -> float | None:
         if protocols.is_parameterized(self.sub_gate):
